@@ -6,7 +6,8 @@ errs on the side of reporting):
                 object or a local alias of one; module-level mutable objects escape only into ChainMap positions
                 after the first (ChainMap writes go to maps[0]); the only module-level mutation is the import-time
                 INSTRUCTIONS.update / KEYWORDS.update block.
-  F2 no hidden state   no `global` / `nonlocal`; no mutable default argument; closures capture parameters only.
+  F2 no hidden state   no `global` / `nonlocal`; no mutable default argument; closures capture parameters only;
+                       no memoising (or unknown) decorator on a function.
   F3 determinism   no call into random / time / os.environ / os.listdir / id / hash / uuid / datetime;
                 no iteration over a set (for-loops, comprehensions, list()/tuple()/sorted-less conversions, join, *-unpacking);
                 dict iteration is insertion ordered (A-CPY) and every dict iterated is built in program order.
@@ -189,6 +190,14 @@ def analyse(tree):
                 stats['iterations_checked'] += 1
                 if is_set_expr(itx, set_names):
                     findings.append((q, itx.lineno, 'F3', 'iteration over a set'))
+        # decorators: a memoising decorator is state that survives the call; a decorator this scan does not know may be one
+        for dec in fn.decorator_list:
+            name = ast.unparse(dec.func if isinstance(dec, ast.Call) else dec)
+            if name in PURE_DECORATORS:
+                continue
+            last = name.split('.')[-1]
+            findings.append((q, fn.lineno, 'F2', ('memoising decorator @%s keeps results between calls' if last in CACHING_DECORATORS
+                                                  else 'decorator @%s (not known to be stateless)') % name))
         # mutable defaults
         for d in fn.args.defaults + [k for k in fn.args.kw_defaults if k is not None]:
             if isinstance(d, (ast.List, ast.Dict, ast.Set, ast.ListComp, ast.DictComp, ast.SetComp)) or \
@@ -201,6 +210,10 @@ def analyse(tree):
                 and s.value.func.attr in MUTATORS and root_name(s.value.func.value) in mutable_globals:
             ml.append((root_name(s.value.func.value), s.value.func.attr, s.lineno))
     return findings, stats, ml, sorted(mutable_globals)
+
+
+PURE_DECORATORS = {'staticmethod', 'classmethod', 'property', 'abc.abstractmethod', 'abstractmethod', 'functools.wraps', 'wraps'}
+CACHING_DECORATORS = {'lru_cache', 'cache', 'cached_property', 'memoize', 'memoized', 'memo'}
 
 
 def is_set_expr(e, set_names):
